@@ -309,7 +309,7 @@ func c07CloseRelease(c *h.Ctx) {
 	brk := c.R.Intn(2) == 0
 	if brk {
 		// the level is a break as well: when the continue handler runs it would have to pause - but not a closed table
-		ss.S.TE.UpdateBlind(-1, 0, 0, 0, 0)
+		setBreak(ss.S.TE, c.R)
 	}
 	if variant == 2 {
 		ss.S.TE.CloseTable()
@@ -353,7 +353,7 @@ func c07Break(c *h.Ctx) {
 	}
 	s := p.SS.S
 	// the level becomes a break after the next hand had been set up
-	s.TE.UpdateBlind(-1, 0, 0, 0, 0)
+	setBreak(s.TE, c.R)
 	c.Feature("break-after-set-up")
 	c07NoOpenAfter(c, p, "C07/hand-opened-on-break-level", "blind level set to break between hands")
 	if c.Failed() {
